@@ -328,6 +328,17 @@ def rule_gc(A: Analysis, rep):
         rep.check(bool(gs2) and all(("t(args.dry_run)", False) in cj for cj in gs2), "GC4", "dry-run deletes nothing", c,
                   "every destructive call is on the `not args.dry_run` side", "a destructive call is reachable with --dry-run: [%s]" % " | ".join(fmt_conj(cj) for cj in gs2))
     rep.check(len(muts) >= 1, "GC1", "gc still deletes", fi.node, "", "gc no longer deletes anything (unrecorded outputs are never removed)", deep=False)
+    # every candidate is acted upon: between collecting a candidate and the next (re)creation of the list, control passes
+    # the loops that print / delete the candidates (a list emptied per directory but consumed after the walk loses all
+    # candidates except those of the last directory)
+    inits = [n for n in g.nodes if n.kind == "stmt" and isinstance(n.ast, (ast.Assign, ast.AnnAssign)) and n.ast.value is not None
+             and norm(n.ast.targets[0] if isinstance(n.ast, ast.Assign) else n.ast.target) == to_delete and norm(n.ast.value) in ("[]", "list()")]
+    cons = [n for n in g.nodes if n.kind == "for" and norm(n.ast.iter) == to_delete]
+    succ_ap = [m for (m, lb) in ap.succ if not is_exc(lb)]
+    okc = bool(inits) and bool(cons) and all(g.all_paths_pass(m, i_, cons, skip_labels=is_exc) for m in succ_ap for i_ in inits) and \
+        all(g.all_paths_pass(m, g.exit, cons, skip_labels=is_exc) for m in succ_ap)
+    rep.check(okc, "GC1", "every candidate collected is printed or deleted", ap.ast, "no path from an append to the list's re-creation (or to the end) avoids the consuming loops",
+              "`%s` can be re-created (or the command can end) after a candidate was appended without the candidates being printed/deleted" % to_delete)
     # dry-run listing iterates the same list
     prints = [c for c in walk_local(fi.node) if isinstance(c, ast.Call) and norm(c.func) == "print" and c.args and isinstance(c.args[0], ast.Constant) and "Would delete" in str(c.args[0].value)]
     okp = False
@@ -569,6 +580,19 @@ def rule_cwd(A: Analysis, rep):
                 rep.check(cls in ("ROOT", "FIELD"), "CWD4", "subprocess cwd in %s" % f.fq.replace("conductor.", ""), c, "cwd class %s" % cls,
                           "subprocess cwd `%s` is not rooted at the project (%s)" % (norm(cw), cls))
     rep.expect_min("CWD4", 10)
+    # CWD6: the tar helpers receive user-supplied paths (-o <file>, <archive file>) that are relative to the invocation
+    # directory: they must run there (re-rooting is tar's `-C`), so no cwd= for them
+    n_tar = 0
+    for fq_ in ("cli.archive.create_archive", "cli.restore.extract_archive"):
+        f_ = A.fn(fq_)
+        for c in walk_local(f_.node):
+            if isinstance(c, ast.Call) and norm(c.func) in ("subprocess.Popen", "subprocess.run", "subprocess.check_call"):
+                n_tar += 1
+                rep.check(A.kw(c, "cwd") is None, "CWD6", "tar runs in the invocation directory (%s)" % fq_, c, "no cwd=, members re-rooted with -C",
+                          "tar is started with cwd=%s: a relative -o/archive path given by the user is resolved against that directory instead of the invocation directory" % (
+                              norm(A.kw(c, "cwd")) if A.kw(c, "cwd") is not None else "?"))
+    if n_tar < 2:
+        raise AnalysisError("CWD6: tar call sites not found")
     # get_working_path / project_root fields
     gw = A.fn("task_types.base.TaskType.get_working_path")
     r = [x for x in walk_local(gw.node) if isinstance(x, ast.Return)]
